@@ -78,6 +78,14 @@ func (b *vDigesterBuilder) Digest(hip HashInputProvider, v Value) (Digester, err
 		return &vDigester{d: k.d, levels: b.levels}, nil
 	case vBKey:
 		return &vDigester{d: k.d, levels: b.levels}, nil
+	case vBlobKey:
+		return &vDigester{d: k.d, levels: b.levels}, nil
+	case vBlob:
+		d, ok := b.known[uint64(1<<32)+uint64(k.n)]
+		if !ok {
+			return nil, fmt.Errorf("unknown byte-level blob key %d", k.n)
+		}
+		return &vDigester{d: d, levels: b.levels}, nil
 	case vU64:
 		d, ok := b.known[uint64(k)]
 		if !ok {
